@@ -1,6 +1,7 @@
 # -*- coding: utf-8 -*-
 
 import copy
+import operator
 from collections import defaultdict
 from typing import (
     Any,
@@ -25,6 +26,7 @@ from .types import (
     GraphQLAbstractType,
     GraphQLType,
     InputObjectType,
+    InputValue,
     InterfaceType,
     ListType,
     NamedType,
@@ -297,29 +299,50 @@ class Schema(ResolverMap):
             self._validated_resolvers = resolvers
 
     def _current_resolvers(self) -> Any:
-        return (
-            self.default_resolver,
-            tuple(
-                (
-                    getattr(type_, "default_resolver", None),
-                    tuple(
-                        (
-                            f.resolver,
-                            f.subscription_resolver,
-                            # Compatibility is a relation between a resolver
-                            # AND the arguments of its field.
-                            tuple(
-                                (a, a.python_name, a.has_default_value, a.type)
-                                for a in f.arguments
-                            ),
-                        )
-                        for f in type_.fields
-                    ),
-                )
-                for type_ in self.types.values()
-                if isinstance(type_, (ObjectType, InterfaceType))
-            ),
-        )
+        # The same goes for everything else the validator reads (root types,
+        # names, fields, interfaces, member types, enum values, directives):
+        # all of it as one flat list, variable length groups closed by _END.
+        out = [self.default_resolver, self.query_type]  # type: List[Any]
+        out.extend((self.mutation_type, self.subscription_type))
+
+        def type_of(member: Any) -> None:  # ... and the types it wraps
+            out.append(member.type)
+            while isinstance(out[-1], (ListType, NonNullType)):
+                out.append(out[-1].type)
+
+        def input_values(values: Sequence[InputValue]) -> None:
+            for v in values:
+                # Compatibility is a relation between a resolver AND the
+                # arguments (`python_name`) of its field.
+                out.extend((v, v.name, v.python_name, v.has_default_value))
+                out.append(v._default_value)
+                type_of(v)
+            out.append(_END)
+
+        for t in self.types.values():
+            out.extend((t, t.name))
+            if isinstance(t, (ObjectType, InterfaceType)):
+                out.append(getattr(t, "default_resolver", None))
+                out.extend((*getattr(t, "interfaces", ()), _END))
+                for f in t.fields:
+                    out.extend((f, f.name, f.resolver, f.subscription_resolver))
+                    type_of(f)
+                    input_values(f.arguments)
+            elif isinstance(t, UnionType):
+                out.extend(t.types)
+            elif isinstance(t, EnumType):
+                for v in t.values:
+                    out.extend((v, v.name, v.value))
+            elif isinstance(t, InputObjectType):
+                input_values(t.fields)
+            out.append(_END)
+
+        for d in self.directives.values():
+            out.append(d)
+            if isinstance(d, Directive):
+                out.extend((d.name, *d.locations, _END))
+                input_values(d.arguments)
+        return out
 
     def _verdict_is_current(self, resolvers: Any = None) -> bool:
         if self._is_valid is None:
@@ -721,13 +744,17 @@ def _clone_directive(directive: Directive) -> Directive:
     return cloned
 
 
-def _same_objects(lhs: Any, rhs: Any) -> bool:
-    # Identity comparison of (nested tuples of) callables.
-    if isinstance(lhs, tuple) and isinstance(rhs, tuple):
-        return len(lhs) == len(rhs) and all(
-            _same_objects(a, b) for a, b in zip(lhs, rhs)
+_END = object()
+
+
+def _same_objects(lhs: List[Any], rhs: List[Any]) -> bool:
+    # Identity comparison of lists of objects; names may also be equal strings.
+    return len(lhs) == len(rhs) and (
+        all(map(operator.is_, lhs, rhs))
+        or all(
+            a is b or (isinstance(a, str) and a == b) for a, b in zip(lhs, rhs)
         )
-    return lhs is rhs
+    )
 
 
 def _build_directive_map(maybe_directives: List[Any]) -> Dict[str, Directive]:
